@@ -57,6 +57,20 @@ CHECKS.update({
    "TLA+ model of reap outcomes and clean-up (DeleteOnlyAfterDelivery, FailedReapKeepsCrop) checked by TLC over farmer kind x failure cause x clean_up x allow_incomplete with corrected retries; replayed with environment-provoked failures",
    "TLC checks that the crop directory is deleted only on a successful reap after delivery and is untouched by refused/failed reaps, for none/Runner/Harvester/Sampler crops with failures at result loading, dataset construction, harvester merge and save; histories incl. the corrected retry are replayed on real crops (failures provoked through the environment) and the directory, outcome, values and data file compared after every call; the pinned Sampler clean-up order (F8) is reproduced as a TLC counterexample.", _CROP_NOTE),
 })
+CHECKS.update({
+ "C05": ("Harvest.tla", "DESIGN.md §6",
+   "TLA+ model of the Harvester store (load-if-exists, merge by policy, remove+save, sessions, expand/drop/delete, save_merge_ds) checked by TLC over all bounded histories; emitted histories replayed on real Harvesters with memory and disk projected to point->version maps",
+   "TLC checks MemEqDisk, NothingDropped, NothingDroppedSessions, PolicyValue and ConflictIsAtomic over every history of length <= 3 (2x2 points, 2 function versions, 3 policies, new sessions, all operations) and simulates longer ones; emitted histories are replayed with extension-less and extended data names on joblib and h5netcdf, disk and memory compared point by point after every call, and NothingDropped is additionally monitored on the real observations; the pinned naming rule (F6) and the un-synced reload (K1) are reproduced as TLC counterexamples on every run; K1 is a recorded known finding.",
+   "Values identify (point, version); dask-chunked sessions and netcdf4/zarr engines are not exercised."),
+ "C15": ("Harvest.tla", "DESIGN.md §6",
+   "TLA+ model of the Sampler table (AppendOnly, ExactlyN, TableMemEqDisk) checked by TLC; emitted histories of sample_combos / sow_samples-grow-reap runs with fresh Sampler objects replayed with forced draws; seeded np.random.choice runs validated for membership and append-only",
+   "TLC checks the append-only and exactly-n action properties over all bounded histories; emitted histories are replayed on real Samplers (pickle and csv, shuffle on/off, crop batch sizes) with the table on disk compared row by row (arguments, outputs belonging to those arguments, constants) after every run, and seeded random-choice sampling runs are validated against the same properties.",
+   "Row order within one run is not demanded; json/hdf engines not exercised."),
+ "C18": ("Infiniplot.tla", "DESIGN.md §8.2",
+   "TLA+ machine of Infiniplotter (InitMapped order, drop empty coordinates, aggregate, DrawNext) checked by TLC against an input-only oracle incl. eight rejected wrong variants; each emitted configuration is plotted and the artists of every panel read back",
+   "TLC enumerates injective assignments of dimensions to the 8 visual properties x null masks x modes (lines, heat map, histogram) x aggregate/join/bins options and checks ExactlyOnce, NothingEmpty, Placement, Styles, Points; every emitted case is drawn with the real infiniplot and lines per panel (points, gaps, style equality classes), QuadMesh cells and histogram lines are compared; the dataset is deep-compared before/after.",
+   "Legends/labels are not examined; colour-coded heat maps checked for order only without a palette; replayed cases are a sample of the enumerated space."),
+})
 NOT_YET = {}
 
 def main():
